@@ -68,7 +68,22 @@ func (r *yieldRewriter) rewriteRanges(block *ast.BlockStmt) {
 					do(cstNewStringIter, n.X)
 				case ty.Info()&types.IsInteger != 0:
 					// >= 1.22 only, but no release, need test
-					do(cstNewIntegerIter, n.X)
+					x := n.X
+					if tv, ok := r.pkg.TypeInfo().Types[n.X]; ok && tv.Value != nil {
+						// a constant operand takes the type of the iteration variable,
+						// e.g. var i int64; for i = range 3 {}  =>  NewIntegerIter(int64(3))
+						switch t := tv.Type.(type) {
+						case *types.Basic:
+							if t.Kind() != types.Int && t.Info()&types.IsUntyped == 0 {
+								x = X.Call(X.Ident(t.Name()), n.X)
+							}
+						case *types.Named:
+							if t.Obj().Pkg() == r.pkg.Types {
+								x = X.Call(X.Ident(t.Obj().Name()), n.X)
+							}
+						}
+					}
+					do(cstNewIntegerIter, x)
 				}
 			case *types.Array:
 				// typing workaround for abstract generic array iter
